@@ -438,6 +438,33 @@ def r_local(E):
         if not ok:
             res.findings.append(Finding("R-LOCAL", f"convert_to_utc :: {what.split(' (')[0]}", f"convert_to_utc lost: {what}",
                                         rel, fn.lineno, fn.name))
+    # every returned frame flows from the per-timestamp conversion of the whole series
+    converted = set()
+
+    def is_converted(e):
+        for c in ast.walk(e):
+            if isinstance(c, ast.Call) and isinstance(c.func, ast.Attribute) and c.func.attr == "tz_convert":
+                inner = c.func.value
+                if any(isinstance(x, ast.Call) and isinstance(x.func, ast.Attribute) and x.func.attr == "tz_localize"
+                       and norm(x.func.value) == "self.value" for x in ast.walk(inner)):
+                    return True
+        names = [x.id for x in ast.walk(e) if isinstance(x, ast.Name) and x.id not in ("pd", "np", "self", "local_timezone")]
+        frame_names = [n for n in names if n in assigned]
+        return bool(frame_names) and all(n in converted for n in frame_names)
+    assigned = {norm(n.targets[0]): n for n in ast.walk(fn) if isinstance(n, ast.Assign) and isinstance(n.targets[0], ast.Name)}
+    for _ in range(4):
+        for n in ast.walk(fn):
+            if isinstance(n, ast.Assign) and isinstance(n.targets[0], ast.Name) and is_converted(n.value):
+                converted.add(n.targets[0].id)
+    for r in [n for n in ast.walk(fn) if isinstance(n, ast.Return) and n.value is not None]:
+        res.instances += 1
+        arg = r.value.args[0] if isinstance(r.value, ast.Call) and r.value.args else r.value
+        if not is_converted(arg):
+            res.findings.append(Finding(
+                "R-LOCAL", f"convert_to_utc :: return path bypasses the conversion :: {norm(arg)[:50]}",
+                f"convert_to_utc returns `{norm(arg)[:70]}`, which does not come from localising and converting every "
+                f"timestamp of the series: a shortcut based on the offsets at the two ends places every hour between two "
+                f"daylight-saving transitions one hour off", rel, r.lineno, fn.name))
     res.floor = 6
     return res
 
@@ -840,6 +867,34 @@ def r_thread(E):
                     res.findings.append(Finding("R-THREAD", f"{name} DataFrame",
                                                 f"{name}: the frame is not built with index=<the time line>, "
                                                 f"columns=['value'] and a pint dtype in pint_unit", rel, c.lineno, name))
+        # inside `for i, period in enumerate(<time line>)`: what decides values[i] is read from the timestamp
+        for L in [n for n in ast.walk(fn) if isinstance(n, ast.For) and isinstance(n.iter, ast.Call)
+                  and norm(n.iter.func) == "enumerate" and isinstance(n.target, ast.Tuple) and len(n.target.elts) == 2]:
+            idx, ts = norm(n_ := L.target.elts[0]), norm(L.target.elts[1])
+            ldep = {idx: {idx}, ts: {ts}}
+            for _ in range(3):
+                for a in ast.walk(L):
+                    if isinstance(a, ast.Assign) and isinstance(a.targets[0], ast.Name):
+                        src = set()
+                        for x in ast.walk(a.value):
+                            if isinstance(x, ast.Name) and x.id in ldep:
+                                src |= ldep[x.id]
+                        ldep[a.targets[0].id] = ldep.get(a.targets[0].id, set()) | src
+            for iff in [n for n in ast.walk(L) if isinstance(n, ast.If) and any(
+                    isinstance(a, ast.Assign) and isinstance(a.targets[0], ast.Subscript) and norm(a.targets[0].slice) == idx
+                    for a in ast.walk(n))]:
+                for x in ast.walk(iff.test):
+                    if isinstance(x, ast.Name) and x.id in ldep and x.id not in (idx, ts):
+                        res.instances += 1
+                        if ts not in ldep[x.id]:
+                            key = f"{name} {x.id} not read from the timestamp"
+                            if not any(fd.key == key for fd in res.findings):
+                                res.findings.append(Finding(
+                                    "R-THREAD", key,
+                                    f"{name}: `{x.id}` decides which hours carry the volume but is computed from the "
+                                    f"position `{idx}` in the series, not from the timestamp `{ts}`: for a start date "
+                                    f"that is not at midnight (or not on the assumed day) the volume lands on the wrong "
+                                    f"hours", rel, x.lineno, name))
         if len(res.samples) < 8:
             res.samples.append({"builder": name, "parameters_reaching_the_result": sorted(flows & params)})
     res.floor = 40
